@@ -189,6 +189,18 @@ def run(rep):
         for desc, var in variants.variants(obj, rng, pool, per_field=20 if thorough else 10,
                                            others=[o for c, o in temps if c is cls and o is not obj]):
             events += event_for(var, 'variant:' + desc)
+    # instants between two ticks of the field (a datetime taken from a clock has microseconds): the 32-bit second counts of an
+    # RRSIG are the whole seconds of the instant
+    import attr
+    import datetime
+    for cls, obj in temps:
+        for field in attr.fields(cls) if attr.has(cls) else ():
+            value = getattr(obj, field.name, None)
+            if isinstance(value, datetime.datetime):
+                for micro in (1, 1500, 999999):
+                    o2, var, _ = call(lambda m, f=field.name, v=value, ob=obj: attr.evolve(ob, **{f: v.replace(microsecond=m)}), micro)
+                    if o2 == 'ok':
+                        events += event_for(var, 'variant:%s=+%dus' % (field.name, micro))
     for o in generated(rep, thorough):
         events += event_for(o, 'generated')
     events += conformant_rdata(rep)
